@@ -27,6 +27,8 @@ type valEnum struct {
 	// variant are outside the schema's value space.
 	discProp    string
 	variantKeys [][]string
+	// variantOrder: normalised Go field name of a oneOf alternative -> its position in the document
+	variantOrder map[string]int
 	// parameter groups (C09): the string domain of the location, and no empty arrays (§11)
 	strings          []string
 	requiredNonEmpty bool
@@ -596,6 +598,15 @@ func (e *valEnum) earlierVariant(a, b reflect.Value) bool {
 		if e.isOneOf(t) {
 			ca, cb := chosen(a), chosen(b)
 			if ca != cb {
+				if ca >= 0 && cb >= 0 && e.variantOrder != nil {
+					// "earlier" is a statement about the DOCUMENT's order of alternatives, not about the order of
+					// the fields the implementation happens to emit
+					pa, oka := e.variantOrder[NormName(t.Field(ca).Name)]
+					pb, okb := e.variantOrder[NormName(t.Field(cb).Name)]
+					if oka && okb {
+						return pb < pa
+					}
+				}
 				return cb >= 0 && cb < ca
 			}
 			if ca >= 0 {
